@@ -39,9 +39,9 @@ def rand_expr(rng, nets, depth, ops_counter=None, allow_const=True):
         return ["not", rng.choice(SYMS["not"]), rand_expr(rng, nets, depth - 1, ops_counter, allow_const)]
     a = rand_expr(rng, nets, depth - 1, ops_counter, allow_const)
     b = rand_expr(rng, nets, depth - 1, ops_counter, allow_const)
-    if op in ("xor", "xnor") and a == b and a[0] == "id":
-        # `x ^ x`: a graph cannot hold two edges x->gate; generated only on request (dup_parity)
-        others = [n for n in nets if n != a[1]]
+    if op in ("xor", "xnor") and a == b and a[0] in ("id", "c"):
+        # `x ^ x` / `1'b1 ^ 1'b1`: a graph cannot hold two edges x->gate; generated only on request (dup_parity)
+        others = [n for n in nets if a[0] == "c" or n != a[1]]
         if others:
             b = ["id", rng.choice(others)]
         else:
